@@ -29,10 +29,27 @@ class Run:
         self.fname, self.flavor, self.ex, self.paths, self.args, self.pre_objs, self.desc = fname, flavor, ex, paths, args, pre_objs, desc
 
 
-def run_api(base, chk, fname, nslice=2, log_reads=False, leak=False):
+def shared_applicable(prog, fname):
+    """does the function take two non-receiver arguments (or slice elements) of the same pointer type?"""
+    f = prog.fn(fname)
+    ps = [p["type"] for p in f["params"]][1 if f["hasrecv"] else 0:]
+    return any(t.startswith("[]*") for t in ps) or any(t.startswith("*") and ps.count(t) > 1 for t in ps)
+
+
+def run_api(base, chk, fname, nslice=2, log_reads=False, leak=False, variant="distinct"):
+    """variant 'shared': all non-receiver arguments of one pointer type (and all elements of a pointer slice) are the
+    same object - the aliasing among arguments that callers produce by passing one value twice"""
     prog = base.prog
     f = prog.fn(fname)
     short = f["short"]
+    cache = {}
+
+    def mk(i, t, make):
+        if variant != "shared" or (i == 0 and f["hasrecv"]):
+            return make()
+        if t not in cache:
+            cache[t] = make()
+        return cache[t]
     if fname.startswith("(*filippo.io/edwards25519.Point).") and short in GROUP or fname in (E + "NewIdentityPoint", E + "NewGeneratorPoint"):
         h = L2m.L2(base, chk)
         ex = h.ex
@@ -43,18 +60,18 @@ def run_api(base, chk, fname, nslice=2, log_reads=False, leak=False):
         for i, p in enumerate(f["params"]):
             t = p["type"]
             if t == PT:
-                args.append(h.point(path, "R" if i == 0 else "P%d" % i))
+                args.append(mk(i, t, lambda: h.point(path, "R" if i == 0 else "P%d" % i)))
             elif t == ST:
-                args.append(h.scalar(path, "k%d" % i)[0])
+                args.append(mk(i, t, lambda: h.scalar(path, "k%d" % i)[0]))
             elif t == "[]" + ST:
-                args.append(h.ptr_slice(path, [h.scalar(path, "ks%d" % j)[0] for j in range(nslice)], "Scalar")[0])
+                args.append(h.ptr_slice(path, [mk(1, ST, lambda: h.scalar(path, "ks%d" % j)[0]) for j in range(nslice)], "Scalar")[0])
             elif t == "[]" + PT:
-                args.append(h.ptr_slice(path, [h.point(path, "Q%d" % j) for j in range(nslice)], "Point")[0])
+                args.append(h.ptr_slice(path, [mk(1, PT, lambda: h.point(path, "Q%d" % j)) for j in range(nslice)], "Point")[0])
             else:
                 raise X.ExecError("sweep: param type %s of %s" % (t, fname))
         pre2 = set(path.heap)
         paths = ex.call(fname, args, path)
-        return Run(fname, "group", ex, paths, args, pre2, "group mode")
+        return Run(fname, "group", ex, paths, args, pre2, "group mode" + (", shared arguments" if variant == "shared" else ""))
     if fname.startswith("(*filippo.io/edwards25519.Scalar).") or fname == E + "NewScalar":
         dom = dom_lf.LFDomain()
         ex = base.executor(dom)
@@ -66,8 +83,7 @@ def run_api(base, chk, fname, nslice=2, log_reads=False, leak=False):
         for i, p in enumerate(f["params"]):
             t = p["type"]
             if t == ST:
-                v = dom.input("s%d" % i, 0, K.L - 1)
-                args.append(X.Ptr(ex.new_obj(path, prog.T(E + "Scalar"), name="s%d" % i, init=[Abs(v, False, "mont")])))
+                args.append(mk(i, t, lambda: X.Ptr(ex.new_obj(path, prog.T(E + "Scalar"), name="s%d" % i, init=[Abs(dom.input("s%d" % i, 0, K.L - 1), False, "mont")]))))
             elif t == "[]byte" or t == "[]uint8":
                 n = {"SetUniformBytes": 64}.get(short, 32)
                 bs = [dom.input("x[%d]" % j, 0, 255) for j in range(n)]
@@ -135,16 +151,16 @@ def run_api(base, chk, fname, nslice=2, log_reads=False, leak=False):
     for nm in ("Equal", "IsNegative", "Bytes", "SetBytes", "Select", "Swap", "Mult32", "Add", "Subtract", "Negate", "Multiply", "Square", "Set", "Zero", "One"):
         if fname == EM + nm:
             # the method under test itself must run from its SSA: use limb-level execution instead
-            return run_api_bv(base, chk, fname, log_reads, leak)
+            return run_api_bv(base, chk, fname, log_reads, leak, variant)
     if fname in (EM + "SetWideBytes", EM + "Absolute", EM + "SqrtRatio", EM + "Invert", EM + "Pow22523") or fname.startswith("(*filippo.io/edwards25519.Point)."):
         path = l1.path()
         args = []
         for i, p in enumerate(f["params"]):
             t = p["type"]
             if t == PT:
-                args.append(l1.obj(path, "Point", [Poly.var("%s%d" % (c, i)) for c in "XYZT"], "p%d" % i))
+                args.append(mk(i, t, lambda: l1.obj(path, "Point", [Poly.var("%s%d" % (c, i)) for c in "XYZT"], "p%d" % i)))
             elif t == ET:
-                args.append(X.Ptr(ex.new_obj(path, prog.T(F + "Element"), name="e%d" % i, init=Abs(Poly.var("e%d" % i), False))))
+                args.append(mk(i, t, lambda: X.Ptr(ex.new_obj(path, prog.T(F + "Element"), name="e%d" % i, init=Abs(Poly.var("e%d" % i), False)))))
             elif t in ("[]byte", "[]uint8"):
                 n = 64 if short == "SetWideBytes" else 32
                 bs = [z3.BitVec("x[%d]" % j, 8) for j in range(n)]
@@ -160,10 +176,11 @@ def run_api(base, chk, fname, nslice=2, log_reads=False, leak=False):
     raise X.ExecError("sweep: no harness for " + fname)
 
 
-def run_api_bv(base, chk, fname, log_reads=False, leak=False):
+def run_api_bv(base, chk, fname, log_reads=False, leak=False, variant="distinct"):
     """limb-level (BV) execution of an Element method with callees Bytes/reduce summarised"""
     prog = base.prog
     f = prog.fn(fname)
+    cache = {}
     k = K.BVK(base, chk, fname)
     ex = k.ex
     ex.log_reads = log_reads
@@ -183,7 +200,12 @@ def run_api_bv(base, chk, fname, log_reads=False, leak=False):
     for i, p in enumerate(f["params"]):
         t = p["type"]
         if t == ET:
-            args.append(k.elem("e%d" % i)[0])
+            if variant == "shared" and i > 0:
+                if t not in cache:
+                    cache[t] = k.elem("e%d" % i)[0]
+                args.append(cache[t])
+            else:
+                args.append(k.elem("e%d" % i)[0])
         elif t in ("[]byte", "[]uint8"):
             n = 64 if short == "SetWideBytes" else 32
             args.append(k.byte_slice("x", n)[0])
